@@ -31,6 +31,19 @@ chk("C12","exploration","offline call-count checker over the recorded downstream
  "Held on the executions explored: per service, HTTP calls <= plan levels for list lengths 1..300 with heavy entity duplication; no duplicate {id} lookups inside one batch; answers equal the reference.",
  "Trusted: event log; plan obtained from SequentialPlanner.Plan on the same context.","DESIGN.md §5 C12")
 
+chk("C07","exploration","hostile-input runtime monitoring in isolated child processes: panic/process-death monitor, response-shape and status oracles against an independent decoder, canary liveness probe",
+ "Held on the hostile requests explored (byte-level, JSON shapes, multipart layouts, corner-case operations): handler returned, no panic or process death, well-formed JSON with data/errors, 422 iff undecodable and 200 iff decodable per the independent decoder, invalid operations rejected with data:null, canary answered correctly afterwards.",
+ "Trusted: independent decoder in c07.go; ambiguous inputs are only checked for well-formedness and liveness.","DESIGN.md §5 C07")
+chk("C08","exploration","differential runtime monitor (batch element vs the same operation alone) under gated completion orders and hook jitter, with the Go race detector as a verdict",
+ "Held on the batches explored: N results in order, each equal to the single-request answer (errors as multisets) for mixes of valid/invalid/failing/slow operations under permuted completion orders; no data race with a pebbles frame.",
+ "Trusted: deterministic fake services with content-keyed faults and gates.","DESIGN.md §5 C08")
+chk("C09","fault_enumeration","single-fault enumeration (call index x fault kind x position) with crash/shape/provenance/canary/goroutine monitors over recorded downstream answers",
+ "For each sampled operation the single-fault space (<= 6 calls x all fault kinds x first/last/all) is enumerated completely, plus sampled two-fault sequences and batch siblings: no panic/death/hang, failure signals reported, every data leaf came from a service, other operations and later requests unaffected.",
+ "Trusted: fake transport's fault injector and its log of bodies actually sent.","DESIGN.md §5 C09")
+chk("C10","exploration","offline checker over the downstream event log (zero events for invalid operations) and error-fidelity oracle on injected GraphQL error payloads",
+ "Held on the mutants and payloads explored: no invalid operation produced a downstream request and all were answered with errors + data:null; every injected downstream error arrived with message, extensions and path intact (multiset matching).",
+ "Trusted: gqlparser validation against the captured merged schema to decide that a mutant is invalid.","DESIGN.md §5 C10")
+
 claimed=set(C)
 na=[{"property_id":p['id'],"reason":"check under construction in this round; not claimed yet"} for p in props if p['id'] not in claimed]
 m={"version":1,"setup_cmd":"./run.sh build && ./run.sh selftest",
